@@ -46,5 +46,7 @@ INIT_SELF = {"_init_cond": {"STATE"}, "_param_struct": {"PARAM"}, "_clock_struct
 def init_roles(prog: Program) -> Roles:
     if "init" not in _ROLES:
         prog.func(INIT_ROOT)
-        _ROLES["init"] = Roles(prog, {INIT_ROOT: {}}, self_attrs=INIT_SELF)
+        _ROLES["init"] = Roles(prog, {INIT_ROOT: {}}, self_attrs=INIT_SELF,
+                               new_as={"InitialCondition": "STATE", "ParamStruct": "PARAM", "ClockStruct": "CLOCK",
+                                       "Output": "OUT", "SoilProfile": "PARAM.Soil.Profile"})
     return _ROLES["init"]
